@@ -133,6 +133,56 @@ func runAnyutil(cfg *Cfg) {
 			}
 		}
 	}
+	// failed pack of a source whose marshalling fails AFTER bytes were written (invalid UTF-8 in a
+	// protoc-gen-go / dynamicpb message): the destination, including the content of its Value, stays
+	failing := []proto.Message{
+		&anypb.Any{TypeUrl: "\xff", Value: bytes.Repeat([]byte{7}, 40)},
+		&anypb.Any{TypeUrl: "ok/then/\xc0\xaf", Value: []byte{1, 2, 3}},
+	}
+	if len(targets) > 0 {
+		// a dynamicpb copy of a generated type with an invalid string, when the type has a string field
+		for _, t := range targets {
+			fds := t.Desc.Fields()
+			done := false
+			for i := 0; i < fds.Len() && !done; i++ {
+				fd := fds.Get(i)
+				if fd.Kind() == protoreflect.StringKind && fd.Cardinality() != protoreflect.Repeated && !fd.IsMap() {
+					d := dynamicpb.NewMessage(t.Desc)
+					d.Set(fd, protoreflect.ValueOfString("bad\xffutf8"))
+					failing = append(failing, d)
+					done = true
+				}
+			}
+			if len(failing) > 8 {
+				break
+			}
+		}
+	}
+	for _, src := range failing {
+		for _, capExtra := range []int{0, 16, 4096} {
+			val := make([]byte, 24, 24+capExtra)
+			for i := range val {
+				val[i] = byte(0xC0 + i)
+			}
+			dst := &anypb.Any{TypeUrl: "/keep.Me", Value: val}
+			before := append([]byte(nil), val...)
+			var err error
+			p, pm := guard(func() { err = anyutil.MarshalFrom(dst, src, proto.MarshalOptions{}) })
+			out.Case(fmt.Sprintf("failpack:%T:%d", src, capExtra), true)
+			rp := fmt.Sprintf("anypack-failing src=%T dstcap=+%d", src, capExtra)
+			if p {
+				out.Violate("C16", "pack-panic", "MarshalFrom panicked: "+pm, rp)
+				continue
+			}
+			if err == nil {
+				out.Count("failing_source_did_not_fail")
+				continue
+			}
+			if dst.TypeUrl != "/keep.Me" || !bytes.Equal(dst.Value, before) || !bytes.Equal(val[:24], before) {
+				out.Violate("C16", "pack-failure-touches-dst", "a failed pack modified the destination (type URL or the bytes of its Value)", rp)
+			}
+		}
+	}
 	// nil source
 	{
 		dst := &anypb.Any{TypeUrl: "old"}
